@@ -23,6 +23,8 @@ protocol frame formats (NFC Digital / ISO 18092 NFC-DEP / LLCP / T1T-T4T), not f
     {"e": "reader", "tech": "212F"|"424F"|"106A", "cmds": [..names..]}
          a reader/writer that activates us in listen_ttf (listen_tta) with a first command, sends the listed
          further commands and then switches its field off (BrokenLinkError)
+    {"e": "multi", "tech": "106A"|"212F"|"424F", "leave_after": n|None, "end": ..., "after": n}
+         a multi-protocol device: tag platform and NFC-DEP Target behind one discovery response (class Multi)
 
 Every driver call is appended to `dev.calls` (class Call: n, op, target object, data, timeout, result/exception,
 `fresh` = the target argument of an exchange is the object returned by the most recent successful discovery).
@@ -558,7 +560,67 @@ class Reader(Entity):
         return bytearray(self.make(name))
 
 
-ENTITY_CLASSES = {"tag": Tag, "p2p-target": P2PTarget, "p2p-initiator": P2PInitiator, "reader": Reader}
+class Multi(Entity):
+    """A multi-protocol device (what a phone with card emulation and peer-to-peer presents): one discovery
+    response, a tag platform AND an NFC-DEP Target with an LLCP peer behind it.
+
+      tech 106A        SEL_RES 60h: ISO-DEP (Type 4A Tag, answers RATS) and NFC-DEP (answers ATR_REQ)
+      tech 212F/424F   answers SENSF_REQ for system code 12FCh as Type 3 Tag (NFCID2 02FEh ...) and for the
+                       wildcard FFFFh as NFC-DEP Target (NFCID2 01FEh ...) - NFC Digital: the NFCID2 prefix tells
+                       the protocol the device is configured for
+    Frames are dispatched by their format: NFC-DEP transport frames ([F0] LEN D4 ..) go to the peer side, all
+    others to the tag side.  `leave_after` (tag side: answered commands) and `end`/`after`/`sessions` (peer side)
+    have the meaning they have for the single protocol entities."""
+
+    def __init__(self, spec, index):
+        Entity.__init__(self, spec, index)
+        self.tech = spec.get("tech", "106A")
+        if self.tech == "106A":
+            tspec = {"e": "tag", "type": "t4a-dep"}
+        else:
+            tspec = {"e": "tag", "type": "t3t", "brty": self.tech}
+        if spec.get("leave_after") is not None:
+            tspec["leave_after"] = spec["leave_after"]
+        self.tag = Tag(tspec, index)
+        pspec = {"e": "p2p-target", "tech": self.tech, "sel_res": 0x60}
+        for k in ("end", "after", "sessions"):
+            if k in spec:
+                pspec[k] = spec[k]
+        self.p2p = P2PTarget(pspec, index)
+
+    def visible(self, dev):
+        return Entity.visible(self, dev) and not self.tag.gone and self.p2p.sessions > 0
+
+    def power_cycle(self):
+        self.tag.power_cycle()
+        self.p2p.power_cycle()
+
+    def sense(self, dev, op, target):
+        if target.atr_req is not None or target.brty != self.tech:
+            return None
+        if self.tech == "106A":
+            if op != "sense_tta":
+                return None
+            found = self.tag.sense(dev, op, target)         # UID of the tag side, SEL_RES 60h
+            return found
+        if op != "sense_ttf":
+            return None
+        req = bytes(target.sensf_req) if target.sensf_req else b"\x00\xFF\xFF\x01\x00"
+        if len(req) == 5 and req[0] == 0 and req[1:3] == b"\xFF\xFF":
+            return self.p2p.sense(dev, op, target)
+        return self.tag.sense(dev, op, target)
+
+    def exchange(self, dev, target, data, timeout):
+        if data is not None:
+            d = bytes(data)
+            # (after a PSL_REQ to 212/424 kbps the F0 start byte is no longer used)
+            if (d[0:1] == b"\xF0" and d[2:3] == b"\xD4") or (d[1:2] == b"\xD4" and d[0] == len(d)):
+                return self.p2p.exchange(dev, target, data, timeout)
+        return self.tag.exchange(dev, target, data, timeout)
+
+
+ENTITY_CLASSES = {"tag": Tag, "p2p-target": P2PTarget, "p2p-initiator": P2PInitiator, "reader": Reader,
+                  "multi": Multi}
 
 
 # ------------------------------------------------------------------------------------------------
